@@ -875,6 +875,9 @@ def judge_bc(case, im, mo):
 SBC = common.Stream("bundleconn", impl_bc, line_bc, judge_bc, chunk=16)
 
 def run(ctx):
+    # the default pass list composed on one module, then exported (ModulePipe.lean; module_connections_preserved)
+    import modpipe
+    modpipe.run(ctx)
     rep = ctx.rep
     rep.extra["rule"] = (
         "type-directed random hierarchical designs (1-4 modules, shared sub-modules, buses, nested slices/concats, port-reference "
